@@ -326,7 +326,11 @@ fn run_schedule(cfg: &Cfg, first: Call, second: Call, park: Option<(&str, usize)
         let _ = do_call(&env, Call::WriteImm);
         let rt = db.begin_read().unwrap();
         *spare.lock().unwrap() = Some((rt, 1));
-        let _ = do_call(&env, Call::WriteNone);
+        // the commit the schedule starts from is non-durable or durable in turn: a reader that
+        // registers on it is tracked differently in the two cases
+        let nth = out.counters.get("schedule_bases").copied().unwrap_or(0);
+        out.count("schedule_bases");
+        let _ = do_call(&env, if nth % 2 == 0 { Call::WriteNone } else { Call::WriteImm });
     }
     events.lock().unwrap().clear();
     if let Some((p, n)) = park {
@@ -375,7 +379,22 @@ fn run_schedule(cfg: &Cfg, first: Call, second: Call, park: Option<(&str, usize)
     if !kept.lock().unwrap().is_empty() {
         let scratch: Mutex<Vec<String>> = Mutex::new(vec![]);
         let env = Env { db: &db, completed: &completed, next_version: &next_version, events: &scratch, spare_reader: &spare, kept: &kept };
+        // first a run of non-durable commits (they reclaim what earlier non-durable commits freed
+        // without a durable commit in between), after which the readers are consulted once
+        let r = std::panic::catch_unwind(std::panic::AssertUnwindSafe(|| (0..4).map(|_| do_call(&env, Call::WriteNone)).collect::<Vec<_>>()));
+        match r {
+            Ok(v) if v.iter().all(|x| !x.starts_with("VIOLATION")) => {}
+            other => out.oracle_fail(format!("schedule|{desc}: non-durable follow-up commits after the schedule failed: {other:?}")),
+        }
+        for (rt, expect, _) in kept.lock().unwrap().iter() {
+            let r = std::panic::catch_unwind(std::panic::AssertUnwindSafe(|| read_snapshot(rt)));
+            match r {
+                Ok(Ok((v, None))) if v == *expect => {}
+                other => out.oracle_fail(format!("schedule|{desc}: a reader of the schedule that saw version {expect} shows {other:?} after four later non-durable commits")),
+            }
+        }
         let r = std::panic::catch_unwind(std::panic::AssertUnwindSafe(|| {
+            // a non-durable and a durable commit
             let a = do_call(&env, Call::WriteNone);
             let b = do_call(&env, Call::WriteImm);
             (a, b)
